@@ -284,7 +284,15 @@ pub fn scenario(g: &mut G, ctx: &RunCtx) -> RunReport {
         wire.push(b' ');
         wire.extend_from_slice(&reason);
     }
-    wire.extend_from_slice(b"\r\n");
+    // (no draw) a status line that ends in a bare LF: a client may refuse the head; one that takes it has read
+    // a status line and nothing else - the field lines after it are all there
+    let lf_status = (status as usize + fields.len()) % 7 == 3;
+    if lf_status {
+        g.probe("status-line-ends-in-a-bare-lf");
+        wire.push(b'\n');
+    } else {
+        wire.extend_from_slice(b"\r\n");
+    }
     let mut targets = vec![wire.len() - 1, wire.len()];
     for (fi, f) in fields.iter().enumerate() {
         wire.extend_from_slice(f.name.as_bytes());
@@ -369,7 +377,7 @@ pub fn scenario(g: &mut G, ctx: &RunCtx) -> RunReport {
         Some(Err(m)) => violation("panic", m.clone()),
         Some(Ok(Err(e))) if e.starts_with("helper:") => violation("status-helper-disagrees", e.clone()),
         Some(Ok(Err(e))) => {
-            if over {
+            if over || lf_status {
                 Verdict::Pass
             } else {
                 violation(format!("valid-head-rejected:{}", e), format!("send() failed with {} for a valid head: {} fields (limit {}), head {} bytes, status {}", e, nfields, limit, head_len, status))
